@@ -49,10 +49,11 @@ impl Parser for PackageJsonParser {
 
 impl PackageJsonParser {
     /// Dependency field names to extract
-    const DEPENDENCY_FIELDS: [&'static str; 4] = [
+    const DEPENDENCY_FIELDS: [&'static str; 5] = [
         "dependencies",
         "devDependencies",
         "peerDependencies",
+        "optionalDependencies",
         "overrides",
     ];
 
